@@ -236,7 +236,7 @@ impl Oracle {
             _ => None,
         };
         if f.starts_with("fail") {
-            let mut msg = format!("err:{peer_name}:{f}");
+            let mut msg = format!("err:{peer_name}:{f}:{}", req.args.join(","));
             if let Some(t) = &tag {
                 msg.push_str(t);
             }
@@ -258,6 +258,10 @@ impl Oracle {
         if f.starts_with("errobj") {
             let v = json!({"error_code": 77, "message": format!("m-{peer_name}-{f}")});
             return CallServiceResult { ret_code: 0, result: v.to_string() };
+        }
+        if f.starts_with("ptab") {
+            let v: serde_json::Map<String, Value> = self.ids.iter().map(|(k, v)| (k.clone(), Value::String(v.clone()))).collect();
+            return CallServiceResult { ret_code: 0, result: Value::Object(v).to_string() };
         }
         if f.starts_with("num") {
             return CallServiceResult { ret_code: 0, result: "42".into() };
